@@ -251,6 +251,8 @@ def ordering : GToks := absPath ["core", "cmp", "Ordering"]
 def someEqual : GToks := absPath ["core", "option", "Option", "Some"] +++ paren (absPath ["core", "cmp", "Ordering", "Equal"])
 def orderingEqual : GToks := absPath ["core", "cmp", "Ordering", "Equal"]
 def coreFn : GToks := absPath ["core", "ops", "Fn"]
+/-- the primitive types by their unshadowable paths -/
+def primBool : GToks := absPath ["core", "primitive", "bool"]
 
 def refTy (ty : Ty) : GToks := "&" ::: U ty.toks
 /-- `&__T`: the helper functions are generic over the field type -/
@@ -275,29 +277,29 @@ def peExpr (k : SrcKind) (cf : CmpField) : GToks :=
     helperFnBlock id helperT
       [["__this", ":"] +++ refT, ["__other", ":"] +++ refT,
        ["__partial_cmp", ":", "impl"] +++ coreFn +++ paren (refT +++ "," ::: refT) +++ "->" ::: optOrdering]
-      ["->", "bool"]
+      ("->" ::: primBool)
       (["__partial_cmp"] +++ paren ["__this", ",", "__other"] +++ "==" ::: someEqual)
       (args e)
   | .by_ .ord e =>
     helperFnBlock id helperT
       [["__this", ":"] +++ refT, ["__other", ":"] +++ refT,
        ["__cmp", ":", "impl"] +++ coreFn +++ paren (refT +++ "," ::: refT) +++ "->" ::: ordering]
-      ["->", "bool"]
+      ("->" ::: primBool)
       (["__cmp"] +++ paren ["__this", ",", "__other"] +++ "==" ::: orderingEqual)
       (args e)
   | .by_ _ e =>
     helperFnBlock id helperT
       [["__this", ":"] +++ refT, ["__other", ":"] +++ refT,
-       ["__eq", ":", "impl"] +++ coreFn +++ paren (refT +++ "," ::: refT) +++ ["->", "bool"]]
-      ["->", "bool"]
+       ["__eq", ":", "impl"] +++ coreFn +++ paren (refT +++ "," ::: refT) +++ ("->" ::: primBool)]
+      ("->" ::: primBool)
       (["__eq"] +++ paren ["__this", ",", "__other"])
       (args e)
   | .key _ t => ufcs2 ["core", "cmp", "PartialEq", "eq"] (applyTemplate t this) (applyTemplate t other)
   | .dflt => ufcs2 ["core", "cmp", "PartialEq", "eq"] this other
 
 def eqChecker (this : GToks) : GToks :=
-  brace (["fn", "_eq", "<", "T", ":"] +++ absPath ["core", "cmp", "Eq"] +++ ["+", "?"] +++ absPath ["core", "marker", "Sized"] +++ [">"] +++ paren ["__this", ":", "&", "T"] +++ brace [] +++
-    "_eq" ::: paren ("&" ::: paren this))
+  brace (["fn", "__assert_eq", "<", "__T", ":"] +++ absPath ["core", "cmp", "Eq"] +++ ["+", "?"] +++ absPath ["core", "marker", "Sized"] +++ [">"] +++ paren ["__this", ":", "&", "__T"] +++ brace [] +++
+    "__assert_eq" ::: paren ("&" ::: paren this))
 
 def eqExpr (k : SrcKind) (cf : CmpField) : GToks :=
   let this := thisOf k cf.f
@@ -376,7 +378,7 @@ def hashExpr (k : SrcKind) (cf : CmpField) : GToks :=
 
 /-- `build_to_index_fn` -/
 def toIndexFn (vs : List VariantE) : GToks :=
-  ["let", "__to_index", "=", "|", "__this", ":", "&", "Self", "|", "->", "usize"] +++
+  ["let", "__to_index", "=", "|", "__this", ":", "&", "Self", "|", "->"] +++ absPath ["core", "primitive", "usize"] +++
     brace ("match" ::: "__this" ::: brace (
       (vs.zipIdx.flatMap fun (v, i) => paren v.makePatWildcard +++ ["=>", idxLit i, ","]) +++
       ("_" ::: "=>" ::: absPath ["core", "unreachable"] +++ ["!", "(", ")", ","]))) +++ [";"]
@@ -440,7 +442,7 @@ def CmpImpl.render (c : CmpImpl) : List GToks :=
     cmpAttrs +++ "impl" ::: implG +++ trait_ +++ "for" ::: c.thisTy +++ wheres +++ brace body
   match c.op with
   | .partialEq =>
-    [head ([fnM "eq"] +++ paren ["&", "self", ",", "__other", ":", "&", "Self"] +++ ["->", "bool"] +++ brace c.inner)]
+    [head ([fnM "eq"] +++ paren ["&", "self", ",", "__other", ":", "&", "Self"] +++ ("->" ::: primBool) +++ brace c.inner)]
   | .partialOrd =>
     [head ([fnM "partial_cmp"] +++ paren ["&", "self", ",", "__other", ":", "&", "Self"] +++ "->" ::: optOrdering +++ brace c.inner)]
   | .ord =>
@@ -450,7 +452,7 @@ def CmpImpl.render (c : CmpImpl) : List GToks :=
       paren ["&", "self", ",", "__state", ":", "&", "mut", "__H"] +++ brace c.inner)]
   | .eq =>
     [head [],
-     ["const", "_", ":", "(", ")", "="] +++ brace (cmpAllowAttrs +++ "fn" ::: "_f" ::: implG +++
+     ["const", "_", ":", "(", ")", "="] +++ brace (cmpAllowAttrs +++ "fn" ::: "__check" ::: implG +++
         paren ("__this" ::: ":" ::: "&" ::: c.thisTy) +++ wheres +++ brace c.inner) +++ [";"]]
 
 end DX
